@@ -657,6 +657,26 @@ def correlation_def(mk, dims, kind):
         got = qk.pauli_correlations(p, ss=("xx", "yz"), sysa=0, sysb=len(dims) - 1)
         mk.eq("pauli_correlations xx", got[0], _corr_ref(p, _pauli(mk, "X"), _pauli(mk, "X"), dims, 0, len(dims) - 1))
         mk.eq("pauli_correlations yz", got[1], _corr_ref(p, _pauli(mk, "Y"), _pauli(mk, "Z"), dims, 0, len(dims) - 1))
+        # every (sum_abs, precomp_func) combination; a returned function is evaluated on two states, twice each
+        # (nothing may be carried from one evaluation to the next)
+        p2 = _q(_state(mk, "p2", D, kind))
+        last = len(dims) - 1
+        refs = lambda st: [_corr_ref(st, _pauli(mk, a), _pauli(mk, b), dims, 0, last) for a, b in ("XX", "YZ")]
+        fs = qk.pauli_correlations(p, ss=("xx", "yz"), sysa=0, sysb=last, precomp_func=True)
+        mk.same("pauli_correlations(precomp_func=True): one function per string", len(fs), 2)
+        for rnd in (1, 2):
+            for nm, st in (("p", p), ("p2", p2)):
+                for k_, w_ in enumerate(refs(st)):
+                    mk.eq(f"pauli_correlations(precomp_func=True)[{k_}]({nm}) evaluation round {rnd}", fs[k_](st), w_)
+        if not mk.sym:
+            # |.| of a symbolic value is not polynomial: the sum_abs forms are compared numerically
+            f = qk.pauli_correlations(p, ss=("xx", "yz"), sysa=0, sysb=last, sum_abs=True, precomp_func=True)
+            for rnd in (1, 2):
+                for nm, st in (("p", p), ("p2", p2)):
+                    mk.eq(f"[numeric-only] pauli_correlations(sum_abs=True, precomp_func=True)({nm}) evaluation round {rnd}",
+                          f(st), sum(abs(complex(x)) for x in refs(st)), tol=1e-9)
+            mk.eq("[numeric-only] pauli_correlations(sum_abs=True)", qk.pauli_correlations(p, ss=("xx", "yz"), sysa=0, sysb=last, sum_abs=True),
+                  sum(abs(complex(x)) for x in refs(p)), tol=1e-9)
     if not mk.sym:
         sa, sb = 0, len(dims) - 1
         A, B = obs[sa][0], obs[sb][1]
@@ -947,6 +967,14 @@ def mutinf_paths(mk, dims):
             mk.eq(f"mutinf dop sysa={sysa}: H(A) of the reduced operator of A", calls[1][1], _ptr(rho, dims, Ss))
             mk.eq(f"mutinf dop sysa={sysa}: H(B) of the reduced operator of the complement", calls[2][1], _ptr(rho, dims, comp))
             mk.eq(f"mutinf dop sysa={sysa}: value", val, _S_of(calls[1][3]) + _S_of(calls[2][3]) - _S_of(calls[0][3]))
+            # the documented `rank` hint is the rank of rho_ab: it may shorten the spectrum of H(AB) only
+            k0 = len(mk.rec.calls)
+            qk.mutinf(_q(rho), dims, sysa, rank=2)
+            calls = mk.rec.calls[k0:]
+            mk.same(f"mutinf dop sysa={sysa}, rank=2: three spectral calls", len(calls), 3)
+            if len(calls) == 3:
+                mk.same(f"mutinf dop sysa={sysa}, rank=2: H(A) and H(B) use the full spectra of the reduced operators",
+                        (len(calls[1][3]), len(calls[2][3])), (np.asarray(calls[1][1]).shape[0], np.asarray(calls[2][1]).shape[0]))
             k0 = len(mk.rec.calls)
             val = qk.mutinf(_q(psi), dims, sysa)
             calls = mk.rec.calls[k0:]
@@ -960,6 +988,9 @@ def mutinf_paths(mk, dims):
             wk = 2 * _np_entropy(_ptr(psi, dims, Ss))
             mk.eq(f"mutinf ket sysa={sysa}", qk.mutinf(qu.qu(psi), dims, sysa), wk, tol=1e-6)
             mk.eq(f"mutinf ket == projector sysa={sysa}", qk.mutinf(qu.qu(_proj(psi)), dims, sysa), wk, tol=1e-5)
+            mk.eq(f"mutinf dop sysa={sysa}, rank=D (a valid hint) changes nothing", qk.mutinf(qu.qu(rho), dims, sysa, rank=D), want, tol=1e-6)
+            # a pure state given as an operator has rank 1 while its marginals have full rank
+            mk.eq(f"mutinf projector sysa={sysa}, rank=1 (the true rank of rho_ab) == 2 S(A)", qk.mutinf(qu.qu(_proj(psi)), dims, sysa, rank=1), wk, tol=1e-5)
     for sa, sb in _pairs(n):
         ab = tuple(sorted(set(sa) | set(sb)))
         whole = len(ab) == n
